@@ -23,7 +23,12 @@ class LoopSpec:
     decreases(cx, env) -> z3 Int term (while loops; proves termination when given)
     """
 
-    def __init__(self, inv, modifies=None, havoc_local=None, decreases=None, name=None, on_entry=None):
+    def __init__(self, inv, modifies=None, havoc_local=None, decreases=None, name=None, on_entry=None,
+                 iter_pre=None, iter_post=None):
+        # per-iteration contract: snap = iter_pre(cx, env, k, view) before the body of an arbitrary iteration,
+        # iter_post(cx, env, snap, k, view) -> [(name, formula)] proved after it
+        self.iter_pre = iter_pre
+        self.iter_post = iter_post
         self.on_entry = on_entry      # on_entry(cx, env): snapshot ghost state when the loop is reached
         self.inv = inv
         self.modifies = modifies
@@ -182,6 +187,7 @@ def symbolic_for(it, s, fr, iterable, ordinal):
         for name, f in spec.inv(cx, fr.env, k, view):
             cx.assume(f)
         it.assign(s.target, view.elem(k), fr)
+        snap = spec.iter_pre(cx, fr.env, k, view) if spec.iter_pre is not None else None
         log = []
         cx.write_logs.append(log)
         try:
@@ -197,6 +203,9 @@ def symbolic_for(it, s, fr, iterable, ordinal):
             if log in cx.write_logs:
                 cx.write_logs.remove(log)
         _check_writes(cx, log, havocked, ordinal, fr)
+        if spec.iter_post is not None:
+            for name, f in spec.iter_post(cx, fr.env, snap, k, view):
+                cx.prove(f"{tag}.iteration:{name}", f, where=f"line {s.lineno}", assume_after=False)
         for name, f in spec.inv(cx, fr.env, k + 1, view):
             cx.prove(f"{tag}.preserved:{name}", f, where=f"line {s.lineno}", assume_after=False)
         raise PathEnd()
